@@ -241,6 +241,19 @@ pub fn destroy_shared<const N1: usize, const N2: usize, const T: usize>() {
     std::mem::forget(world);
 }
 
+/// The same pass run on a CLONE of an arbitrary state (the original is dropped from the picture):
+/// the destroys the loop issues go through the clone's own slot table.
+pub fn destroy_shared_on_clone<const N1: usize, const N2: usize, const T: usize>() {
+    let (orig, mt, mo) = setup::<N1, N2>();
+    let mut world = orig.clone();
+    let mut run = Run::<N1, N2, T>::any();
+    ecs_iter_destroy!(world, |e: &EntityAny, p: &P| run.visit(p.0, e.raw(), &mt, &mo, None));
+    check_after(&mut world, &mt, &mo, &run, true, true);
+    cover!(N1 < 2 || (mt.len == 1 && !mt.slot_live(0) && run.dec[0].destroys()), "destroyed an entity living in a later slot position of the clone");
+    std::mem::forget(world);
+    std::mem::forget(orig);
+}
+
 /// Only ArchTri matched; direct handles of each parameter flavour are minted and checked.
 pub fn destroy_tri_direct<const N1: usize, const N2: usize, const T: usize>(flavour: u8) {
     let (mut world, mt, mo) = setup::<N1, N2>();
@@ -298,6 +311,7 @@ pub fn plain_step_closures<const N1: usize, const N2: usize>() {
 harness! { fn c07_plain_step_2_1() unwind(5) { plain_step_closures::<2, 1>() } }
 harness! { fn c07_shared_2_1() unwind(5) { destroy_shared::<2, 1, 3>() } }
 harness! { fn c07_shared_1_2() unwind(5) { destroy_shared::<1, 2, 3>() } }
+harness! { fn c07_on_clone_2_1() unwind(5) { destroy_shared_on_clone::<2, 1, 3>() } }
 harness! { fn c07_shared_2_2() unwind(6) { destroy_shared::<2, 2, 4>() } }
 harness! { fn c07_shared_3_1() unwind(6) { destroy_shared::<3, 1, 4>() } }
 harness! { fn c07_tri_direct_typed_3() unwind(6) { destroy_tri_direct::<3, 0, 3>(0) } }
